@@ -25,7 +25,7 @@ ASSUMPTIONS = [
     "zero-width bins are only given to the pileup algorithm (the BED reader used by --count is C08's subject)",
     "CRAM / --fasta are not driven",
 ]
-BUDGET_S = {"quick": 300, "thorough": 1800}
+BUDGET_S = {"quick": 600, "thorough": 2400}
 HASHSEEDS = ["0", "3", "11", "42"]
 CUTOFFS = [0, 1, 5, 10, 20, 30, 31, 60]
 
